@@ -917,8 +917,8 @@ class MHistory:
             self.prune()
             return 'gc'
         elif k == 'gc_roots':
-            # non-negative roots (see the finding about complemented roots)
-            roots = sorted({abs(self.pick()) for _ in range(rng.randint(1, 3))})
+            # roots of either sign: `collect_garbage` takes `abs` (repaired finding F14)
+            roots = sorted({self.pick() for _ in range(rng.randint(1, 3))})
             s.op(mid, 'mdd_gc', ','.join(map(str, roots)))
             self.prune()
             return 'gc_roots'
@@ -1133,7 +1133,8 @@ def check_rejected_conversions(ctx, n_cases):
 
 
 def probe_negative_root(ctx):
-    """`MDD.collect_garbage(roots)` with a complemented unreferenced root (dd.bdd takes `abs`)."""
+    """Deterministic witness of the repaired finding F14: `MDD.collect_garbage(roots)` with a
+    complemented unreferenced root frees the node (as `dd.bdd` does, `abs` of the roots)."""
     s = Session(ctx)
     new_mdd(s, 0, (2, 2))
     u = s.val(s.op(0, 'mdd_foa', 1, '1,-1'))
@@ -1141,10 +1142,18 @@ def probe_negative_root(ctx):
     ans = s.op(0, 'mdd_gc', str(-v))
     m = get_mdd(s, 0)
     ctx.evaluations += 1
-    if ans != 'ok -' or v in m._succ:
+    ctx.case(('complemented-root', -v))
+    if ans != 'ok -' or v in m._succ or u in m._succ or m._free != {u, v}:
         ctx.violation('MDD.collect_garbage(roots=[-u]) does not free the unreferenced node u', dict(
-            answer=ans, lines=list(s.lines),
+            answer=ans, nodes=sorted(m._succ), free=sorted(m._free), lines=list(s.lines),
             tags=dict(call='mdd.collect_garbage', complemented_root=True)))
+    # both signs of a held node: nothing is freed
+    w = s.val(s.op(0, 'mdd_foa', 1, '1,-1'))
+    s.op(0, 'mdd_incref', -w)
+    ans2 = s.op(0, 'mdd_gc', f'{-w},{w}')
+    if ans2 != 'ok -' or w not in m._succ:
+        ctx.violation('MDD.collect_garbage(roots) freed a held node', dict(
+            answer=ans2, lines=list(s.lines), tags=dict(call='mdd.collect_garbage', held_root=True)))
     s.op(0, 'mdd_state')
     ctx.add_session(s, MDD_SECTIONS, 'C15 complemented root')
     s.close()
